@@ -57,10 +57,10 @@ theorem full24_shank (cfg : Cfg) (call : Call) (s : Disk) (i : Nat) (hi : i < cf
     omega
 
 theorem splitDiffers_false_iff (cfg : Cfg) (call : Call) :
-    splitDiffers cfg call = false ↔ ∀ i, i < cfg.n → call.corrupt ≠ some i := by
+    splitDiffers cfg call = false ↔ ∀ i, i < cfg.n → altered cfg call i = false := by
   simp [splitDiffers, List.any_eq_false]
 
-theorem apData_good (cfg : Cfg) (call : Call) (i : Nat) (h : call.corrupt ≠ some i) : apData cfg call i = .good cfg.c := by
+theorem apData_good (cfg : Cfg) (call : Call) (i : Nat) (h : altered cfg call i = false) : apData cfg call i = .good cfg.c := by
   simp [apData, h]
 
 theorem FilesComplete.holds {cp d f} (h : FilesComplete cp d f) : FilesHold d f ∧ f.md = true := by
@@ -90,7 +90,7 @@ inductive Exit24 (cfg : Cfg) (call : Call) (s : Disk) : Disk × Result → Prop
       Exit24 cfg call s (S3 cfg call s (stopAt call.interrupt Point.metaIdx (2 * cfg.n)), .raised .injected)
   | atVerify : origReadable s = true → alreadyExists24 cfg.n call.overwrite s = false →
       call.opts.postCheck = true →
-      stopAt call.interrupt Point.verifyIdx (nverif cfg * (1 + cfg.n)) < nverif cfg * (1 + cfg.n) →
+      stopAt call.interrupt Point.verifyIdx (verifyReads cfg call) < verifyReads cfg call →
       Exit24 cfg call s (S3 cfg call s (2 * cfg.n), .raised .injected)
   | verifyFails : origReadable s = true → alreadyExists24 cfg.n call.overwrite s = false →
       call.opts.postCheck = true → splitDiffers cfg call = true →
@@ -131,7 +131,7 @@ theorem process24_exit (cfg : Cfg) (call : Call) (s : Disk) : Exit24 cfg call s 
     rw [this]; exact .atMeta h0 h1 h3
   have e3 : stopAt call.interrupt Point.metaIdx (2 * cfg.n) = 2 * cfg.n := by
     have := stopAt_le call.interrupt Point.metaIdx (2 * cfg.n); omega
-  cases hv : (call.opts.postCheck && decide (stopAt call.interrupt Point.verifyIdx (nverif cfg * (1 + cfg.n)) < nverif cfg * (1 + cfg.n)))
+  cases hv : (call.opts.postCheck && decide (stopAt call.interrupt Point.verifyIdx (verifyReads cfg call) < verifyReads cfg call))
   case true =>
     have : process24 cfg call s = (S3 cfg call s (2 * cfg.n), .raised .injected) := by
       simp only [process24, h0, h1, S1, S2, S3, e2, e3, hv]; simp
@@ -177,7 +177,7 @@ theorem process24_exit (cfg : Cfg) (call : Call) (s : Disk) : Exit24 cfg call s 
 
 /-- NP2.1: disk after `j` `_split2shanks` calls (the lf file was opened by `_prepare_files_NP21`) -/
 def T2 (cfg : Cfg) (s : Disk) (j : Nat) : Disk :=
-  { s with lf := { s.lf with bin := written (nproc cfg) j (.good cfg.c) } }
+  { s with lf := { s.lf with bin := written (nproc cfg) j (.good cfg.c) true } }
 /-- … after all windows and `m` `write_meta_data` calls -/
 def T3 (cfg : Cfg) (s : Disk) (m : Nat) : Disk :=
   { T2 cfg s (nproc cfg) with lf := { (T2 cfg s (nproc cfg)).lf with md := (T2 cfg s (nproc cfg)).lf.md || decide (0 < m) } }
@@ -299,7 +299,7 @@ theorem process24_recoverable (cfg : Cfg) (call : Call) (s : Disk) (hk : cfg.kin
 /-- the original is removed by `_process_NP24` only in the `deleted` exit -/
 theorem process24_delete (cfg : Cfg) (call : Call) (s : Disk) (h0 : OrigHolds s)
     (h1 : ¬ OrigHolds (process24 cfg call s).1) :
-    call.opts.postCheck = true ∧ call.opts.deleteOriginal = true ∧ (∀ i, i < cfg.n → call.corrupt ≠ some i) ∧
+    call.opts.postCheck = true ∧ call.opts.deleteOriginal = true ∧ (∀ i, i < cfg.n → altered cfg call i = false) ∧
     (process24 cfg call s).2 = .ret 1 ∧
     ∀ i, i < cfg.n → ∃ sh, (process24 cfg call s).1.shanks i = some sh ∧
       FilesComplete call.opts.compress (.good cfg.c) sh.ap ∧ FilesComplete call.opts.compress (.good cfg.c) sh.lf := by
@@ -428,7 +428,7 @@ theorem process21_rerun_noop (cfg : Cfg) (call : Call) (s : Disk) (h0 : OrigHold
     exact he
   simp [process21, h0', hl, hw]
 
-theorem written_ne_absent (n k d) : written n k d ≠ .absent := by
+theorem written_ne_absent (n k d ok) : written n k d ok ≠ .absent := by
   unfold written; split <;> simp
 
 theorem compressFileSet_exists (ow d idx q f) (h : f.bin ≠ .absent) :
@@ -448,17 +448,17 @@ theorem process21_creates_output (cfg : Cfg) (call : Call) (s : Disk) (h0 : Orig
   cases ex with
   | noOriginal h => simp [h] at h0'
   | alreadyExists _ h _ => simpa [lfExists] using h
-  | atSplit => left; exact written_ne_absent _ _ _
-  | atMeta => left; exact written_ne_absent _ _ _
-  | plain => left; exact written_ne_absent _ _ _
+  | atSplit => left; exact written_ne_absent _ _ _ _
+  | atMeta => left; exact written_ne_absent _ _ _ _
+  | plain => left; exact written_ne_absent _ _ _ _
   | atCompress =>
     simp only [T5]
     apply compressFileSet_exists
-    split <;> (try split) <;> exact written_ne_absent _ _ _
+    split <;> (try split) <;> exact written_ne_absent _ _ _ _
   | compressed =>
     simp only [T5]
     apply compressFileSet_exists
-    split <;> (try split) <;> exact written_ne_absent _ _ _
+    split <;> (try split) <;> exact written_ne_absent _ _ _ _
 
 theorem process21_completes (cfg : Cfg) (call : Call) (s : Disk) (h0 : OrigHolds s)
     (hae : lfExists s = false ∨ call.overwrite = true) (hi : call.interrupt = none) :
